@@ -98,17 +98,34 @@ func tweakRecord(c *Ctx, rec *gen.Record) {
 			// a maker note that is no Canon directory (a count in the byte order of an II file and
 			// fewer bytes than that many entries): an unrelated value as far as the fields go
 			n := 8 + y.Intn(30)
+			k := 3
+			if z := c.L("rec:z"); z.Chance(1, 2) {
+				// ... or just enough bytes for the entries but not for the link behind them
+				k = 1 + 2*z.Intn(2)
+				n = 2 + 12*k - 3 + z.Intn(10)
+			}
 			note := make([]byte, n)
 			for i := range note {
 				note[i] = 1
 			}
-			note[0], note[1] = 3, 0
+			note[0], note[1] = byte(k), 0
 			if y.Bool() {
-				note[0], note[1] = 0, 3
+				note[0], note[1] = 0, byte(k)
 			}
 			rec.MakerNote = note
 			c.Inc("probe:canon-opaque-maker-note")
 		}
+	} else if z := c.L("rec:z"); z.Chance(1, 8) && rec.MakerNote == nil {
+		// a note that begins like a Nikon type-3 note (header, a Tiff header of its own) and ends
+		// inside the directory it announces
+		mk := "Nikon" // (the spelling the result reports, see the assumptions of C03)
+		rec.Make = &mk
+		note := []byte("Nikon\x00\x02\x10\x00\x00II*\x00\x08\x00\x00\x00\x03\x00")
+		for i := z.Intn(24); i > 0; i-- {
+			note = append(note, 1)
+		}
+		rec.MakerNote = note
+		c.Inc("probe:nikon-note-shorter-than-its-directory")
 	}
 }
 
@@ -215,7 +232,10 @@ func init() {
 				c.Fail("mismatch", e.Name, path, fmt.Sprintf("field %s: library reports %s, the file encodes %s", path, got, exp))
 				return
 			}
-			if got, exp := res.Fields.Get("Exif.ImageType"), wantType(pl.rec, imagetype.ImageTiff); got != exp {
+			// (a note that begins like a Nikon note turns the reported type into NEF whatever the
+			// container: left out of the type clauses, D.4)
+			nikonHdr := len(pl.rec.MakerNote) > 18 && string(pl.rec.MakerNote[:6]) == "Nikon\x00"
+			if got, exp := res.Fields.Get("Exif.ImageType"), wantType(pl.rec, imagetype.ImageTiff); got != exp && !nikonHdr {
 				c.Fail("mismatch", e.Name, "Exif.ImageType", fmt.Sprintf("image type %s, want %s", got, exp))
 				return
 			}
@@ -231,7 +251,14 @@ func init() {
 				res2 := invoke(c, e, &harness.Env{}, r2)
 				c.Inc("probe:stripped-twin-compared")
 				if res2.Panic != nil || res2.Canon() != res.Canon() {
-					path, a, b := harness.Diff(res.Fields, res2.Fields, nil)
+					var skip map[string]bool
+					if nikonHdr {
+						skip = map[string]bool{"Exif.ImageType": true}
+					}
+					path, a, b := harness.Diff(res.Fields, res2.Fields, skip)
+					if path == "" && res2.Panic == nil && res.Err == res2.Err {
+						return
+					}
 					c.Fail("mismatch", e.Name, "twin:"+path, fmt.Sprintf("with foreign tags/padding: %s, stripped: %s (err %s vs %s)", a, b, res.Err, res2.Err))
 				}
 			}
